@@ -136,6 +136,10 @@ func (c *ExecuteCtx) AdjustChunkCache(chooseIdxes []int) {
 		}
 		c.FieldChunkCaches[k] = nv
 	}
+	// The chunks cached by their first key contain the pairs dropped by the
+	// filter, they should not be used for the filtered chunk that may start
+	// with the same key
+	clear(c.FieldChunkKeyCaches)
 }
 
 type FinalPlan interface {
